@@ -258,6 +258,21 @@ CLAIMS = {
         "Trusted: Coq kernel; extraction + driver; harness. Axioms: none.",
         "6 (C05)",
     ),
+    "C01": (
+        "Coq proofs for every description / default text of how a default is written into the prose (set_default_doc: prefix, "
+        "single full stop, announced exactly once; quote idempotent), tied by comparison with the code; the docstring round trip "
+        "itself evaluated on the implementation over 3 styles x 16 flag combinations with per-class known findings",
+        "C01_default_in_prose, C01_default_announced_once, C01_default_stripped, C01_quote_idempotent hold for every string (model "
+        "Model/DefaultDoc.v compared with set_default_doc / quote on generated tuples each run). The scanners, the three style "
+        "parsers and extract_default are NOT modelled (the character-level ReST scanner lemma of the design was not carried out): "
+        "for IRs of the docstring-representable domain every (style, emit_default_doc, emit_types, word_wrap, parser keeps/strips "
+        "the announcer) combination is rendered, parsed back and compared (names, order, type strings, defaults with their Python "
+        "type, descriptions modulo whitespace / full stop / announcer, return entry); a sweep over all description lengths 30..120 "
+        "exercises every word-wrap position. ReST differences are matched per fine class, Google/NumPy (which drift heavily on the "
+        "pinned tree) per coarse class; anything else is a violation: partial.",
+        "Trusted: Coq kernel; extraction + driver; harness comparison. Axioms: none.",
+        "6 (C01)",
+    ),
 }
 
 NOT_YET = "check not built yet in this development (DESIGN.md section 8 gives the order of work)"
